@@ -277,13 +277,13 @@ fn structure_strategy() -> impl Strategy<Value = AdvCase> {
 }
 
 /// C06 at box level: the stand-alone decoders (`ReadBox::read_box`, public API) on reference
-/// encodings of generated box values and on byte-mutated versions of them; only panics count here
+/// encodings of generated box values and on byte-mutated versions of them; only panics count here (in the decoder or in summary()/to_json()/box_size() of what it returned)
 /// (what the decoder returns is C04/C05's subject).
 fn run_spec_boxes(ctx: &mut Ctx) {
     use crate::boxes::{self, KINDS};
     use crate::props::c04::Case as BoxCase;
     ctx.stage("spec-boxes");
-    let per_kind = (ctx.pick(600u32, 6000u32) / ctx.nshards).max(6);
+    let per_kind = (ctx.pick(8000u32, 48_000u32) / ctx.nshards).max(6);
     for kind in KINDS {
         let s = (boxes::strategy(kind, 2), prop::collection::vec((any::<u16>(), prop_oneof![Just(0u8), Just(1u8), Just(0xffu8), Just(0x7fu8), Just(0x80u8), any::<u8>()]), 0..4)).prop_map(|(spec, muts)| BoxCase { spec, muts, mode: 1 });
         ctx.run_prop(s, per_kind, |ctx, c| spec_box_oracle(ctx, c));
@@ -303,10 +303,12 @@ fn spec_box_oracle(ctx: &mut Ctx, c: &crate::props::c04::Case) -> Check {
     ctx.count(&format!("spec-boxes:{}", if c.muts.is_empty() { "reference-bytes" } else { "mutated-bytes" }));
     ctx.nontrivial(crate::engine::fnv64(&b) ^ 0x5bec);
     let mut cv = Converse { kind, bytes: &b, compare_bytes: false, accepted: false, reencoded: false };
+    libbox::RENDER_DECODED.with(|x| x.set(true));
     let r = match libbox::with_lib(&c.spec, &mut cv) {
         Some(r) => r,
         None => cv.visit(&libbox::dinf_witness()),
     };
+    libbox::RENDER_DECODED.with(|x| x.set(false));
     match r {
         Err(f) if f.sig.starts_with("panic@read_box") => Err(f),
         _ => Ok(()),
